@@ -11,6 +11,11 @@ NA = {
 }
 
 CHECKS = {
+    'C20': dict(
+        category='other', design_ref='DESIGN.md §5 C20',
+        technique='provenance/signature-table rules over extractors, registry and call site + rustc compile(-fail) witnesses for arities and parameter types',
+        text='This applies one conversion to receiver or first argument and is the first parameter of every built-in using it (table from the resolved generic arguments of the 24 registrations), no extractor indexes the argument list blindly, add is an unconditional insert and lookups walk to the root, 20 adapters exist and rustc accepts arities 0-9 / rejects arity 10 and unsupported types, the call site passes receiver, unevaluated arguments, name and a zero cursor.',
+        note='bodies of host functions are outside the claim'),
     'C10': dict(
         category='other', design_ref='DESIGN.md §5 C10',
         technique='constant-tree propagation (abstract interpretation of the loop-free macro expanders) compared with reference expansions; MIR loop-shape rules with SCCP for the fold',
